@@ -29,10 +29,45 @@ theorem locks_ctor_callers : Gen.Locks.ctorCallers.all (fun p =>
     (p.1 == "server.GCAServer.loadGCAServerKeys" && p.2 == "server.GCAServer.addPubKeyFile")) = true := by
   decide +kernel
 
-/-- A function whose whole body is one critical section: lock, deferred unlock, then only code under the lock. -/
+mutual
+/-- No statement of the program takes, releases or defers the release of any mutex. -/
+def stmtNoLockOps : Stmt → Bool
+  | .lock _ | .unlock _ | .deferUnlock _ => false
+  | .ite a b => progNoLockOps a && progNoLockOps b
+  | .loop b => progNoLockOps b
+  | _ => true
+def progNoLockOps : List Stmt → Bool
+  | [] => true
+  | s :: r => stmtNoLockOps s && progNoLockOps r
+end
+
+/-- A function whose whole body is one critical section: lock, deferred unlock, then only code under
+the lock - nothing after the first two statements touches a mutex again. -/
 def singleSection : Prog → Bool
-  | .lock m :: .deferUnlock m' :: _ => m == m'
+  | .lock m :: .deferUnlock m' :: rest => m == m' && progNoLockOps rest
   | _ => false
+
+/-- Helpers that run under their caller's lock never release or re-take it (README: a mutex is locked and
+unlocked in the same function): an operation built from them stays ONE critical section. This is what
+makes the week rotation (`migrateReports`: archive, shift, advance the offset), `saveEquipment`,
+`integrateReport` and the loaders atomic with respect to every other operation. -/
+theorem locks_assuming_keep : Gen.Locks.assuming.all (fun p => progNoLockOps p.2.2) = true := by decide +kernel
+
+theorem locks_ctors_keep : Gen.Locks.ctors.all (fun p => progNoLockOps p.2) = true := by decide +kernel
+
+/-- A lock-free prelude, then exactly one critical section that lasts to the end of the function. -/
+def lockedTail : Prog → Bool
+  | [] => false
+  | .lock m :: rest =>
+    match rest.getLast? with
+    | some (.unlock m') => m == m' && progNoLockOps rest.dropLast
+    | _ => false
+  | s :: rest => stmtNoLockOps s && lockedTail rest
+
+/-- The week rotation `migrateReports` fetches the week's impact data first (its own short sections, through
+a function that locks for itself) and then archives, persists, shifts and advances the offset in ONE
+critical section: no report or query can run between the archive and the shift. -/
+theorem rotation_single_section : lockedTail Gen.Locks.u_server_GCAServer_migrateReports = true := by decide
 
 /-- `RateLimiter.Allow` (clock read included), `registerGCA`, the datagram handler and
 `managedAuthorizeEquipment` are single critical sections: concurrent calls are sequences. -/
